@@ -1050,18 +1050,24 @@ def r12_5(chk: Check) -> None:
 def rules(chk: Check) -> None:
     M = Model(chk.src)
     chk.touch(M.fi.name)
-    slots = r12_2(chk, M)
-    r12_1(chk, M, slots)
-    r12_3(chk, M)
-    r12_4(chk, M, slots)
-    r12_5(chk)
+    slots = chk.stage(r12_2, chk, M)
+    if slots is not None:
+        chk.stage(r12_1, chk, M, slots)
+    chk.stage(r12_3, chk, M)
+    if slots is not None:
+        chk.stage(r12_4, chk, M, slots)
+    chk.stage(r12_5, chk)
     # basis independence of everything derived from deltaF (shared rule with C13)
     from .c13 import cardinal_before_weights
-    cardinal_before_weights(chk, "R12.6")
+    chk.stage(cardinal_before_weights, chk, "R12.6")
     chk.floor("R12.6", 2)
     # R12.7: the derivative / intertwiner matrices of a basis are those of the very basis functions used by changeBasis and evaluate
     # (restricted Chebyshev basis and index ranges: shared with C16 R16.1 / R16.2), so that the solution does not depend on the basis
     from ..core import Remap
     from . import c16
-    c16.rules(Remap(chk, {"R16.2": "R12.7", "R16.1": "R12.7"}))
+    chk.stage(c16.rules, Remap(chk, {"R16.2": "R12.7", "R16.1": "R12.7"}))
     chk.floor("R12.7", 10)
+    # R12.8: the finite-difference cross-check converts the collision operator to the cardinal basis by calling changeBasis for its effect
+    from .shared import called_for_effect_mutates
+    chk.stage(called_for_effect_mutates, chk, "R12.8", "changeBasis")
+    chk.floor("R12.8", 2)
